@@ -64,18 +64,20 @@ Proof. exact lenient_nonvacuous. Qed.
 (** * how the reader obtains the list of sections (theories/C04/ChainModel.v, ChainProofs.v)
 
     A file = finite map  offset -> {section; /Prev; /XRefStm}  + the startxref offset;
-    [collect_sections] / [read_xref] = the loop of parse_with_incremental_updates_options. *)
+    [collect_sections] / [read_xref] = the loop of parse_with_incremental_updates_options WITH
+    fix_c04_hybrid_xrefstm.patch (the /XRefStm stream of a classic section is parsed and merged right
+    after the section, before /Prev); [read_xref_pinned] = the loop before that fix. *)
 From OxVerif Require Import C04.ChainModel C04.ChainProofs.
 
 (** any map, cycles included: the loop ends (the fuel of the model is never exhausted) after at most
-    one section per offset of the map — by the visited set *)
+    two sections (a section and its /XRefStm stream) per offset of the map — by the visited set *)
 Theorem c04_chain_terminates : forall f,
   collect_sections f <> WFuel /\ read_xref f <> WFuel /\
-  forall l, collect_sections f = WOk l -> (length l <= length (f_at f))%nat.
+  forall l, collect_sections f = WOk l -> (length l <= 2 * length (f_at f))%nat.
 Proof. exact chain_terminates_lemma. Qed.
 Check c04_chain_terminates : forall f,
   collect_sections f <> WFuel /\ read_xref f <> WFuel /\
-  forall l, collect_sections f = WOk l -> (length l <= length (f_at f))%nat.
+  forall l, collect_sections f = WOk l -> (length l <= 2 * length (f_at f))%nat.
 Print Assumptions c04_chain_terminates.
 
 (** ... and more fuel never changes the result *)
@@ -93,36 +95,34 @@ Check c04_chain_novisit_refuted : exists m start, forall fuel, walk_novisit m fu
 Print Assumptions c04_chain_novisit_refuted.
 
 (** a well-formed revision chain (newest section at startxref, every /Prev = offset of the section of
-    the revision before, oldest without /Prev, no offset twice) is collected newest first *)
+    the revision before, oldest without /Prev, no offset twice, every /XRefStm names an offset where a
+    section parses) is collected newest first, each update's /XRefStm stream right after its section *)
 Theorem c04_chain_newest_first : forall f ch,
-  is_chain f ch -> collect_sections f = WOk (map (fun p => s_sec (snd p)) ch).
+  is_chain f ch ->
+  collect_sections f = WOk (concat (map (fun p => s_sec (snd p) :: xrefstm_secs (f_at f) (snd p)) ch)).
 Proof. exact chain_newest_first_lemma. Qed.
 Check c04_chain_newest_first : forall f ch,
-  is_chain f ch -> collect_sections f = WOk (map (fun p => s_sec (snd p)) ch).
+  is_chain f ch ->
+  collect_sections f = WOk (concat (map (fun p => s_sec (snd p) :: xrefstm_secs (f_at f) (snd p)) ch)).
 Print Assumptions c04_chain_newest_first.
 
-(** EVERY file: following /Prev from startxref there is a duplicate-free path ch that ends at a section
-    without /Prev, or at a /Prev pointing back into the path (cycle) — the loop then returns exactly the
-    sections of ch, newest first, each once — or at an offset where nothing parses — then it returns Err *)
+(** EVERY file: either the loop returns Err (some /Prev or /XRefStm on the way names an offset where
+    nothing parses), or there is a duplicate-free /Prev path ch from startxref that ends at a section
+    without /Prev or at a /Prev pointing back into the path (cycle), and the loop returns exactly the
+    lookup order of ch: each section once, each followed by its /XRefStm stream *)
 Theorem c04_walk_shape : forall f,
+  collect_sections f = WErr \/
   exists ch stop,
     path_from (f_at f) (Some (f_start f)) ch stop /\ NoDup (map fst ch) /\
-    match stop with
-    | None => collect_sections f = WOk (map (fun p => s_sec (snd p)) ch)
-    | Some b =>
-        (In b (map fst ch) /\ collect_sections f = WOk (map (fun p => s_sec (snd p)) ch))
-        \/ (mfind b (f_at f) = None /\ collect_sections f = WErr)
-    end.
+    match stop with None => True | Some b => In b (map fst ch) end /\
+    collect_sections f = WOk (concat (map (fun p => s_sec (snd p) :: xrefstm_secs (f_at f) (snd p)) ch)).
 Proof. exact walk_shape_lemma. Qed.
 Check c04_walk_shape : forall f,
+  collect_sections f = WErr \/
   exists ch stop,
     path_from (f_at f) (Some (f_start f)) ch stop /\ NoDup (map fst ch) /\
-    match stop with
-    | None => collect_sections f = WOk (map (fun p => s_sec (snd p)) ch)
-    | Some b =>
-        (In b (map fst ch) /\ collect_sections f = WOk (map (fun p => s_sec (snd p)) ch))
-        \/ (mfind b (f_at f) = None /\ collect_sections f = WErr)
-    end.
+    match stop with None => True | Some b => In b (map fst ch) end /\
+    collect_sections f = WOk (concat (map (fun p => s_sec (snd p) :: xrefstm_secs (f_at f) (snd p)) ch)).
 Print Assumptions c04_walk_shape.
 
 (** ... and whatever was collected (any file, cycles included), the loop-carried table is the merge of
@@ -138,72 +138,46 @@ Check c04_any_file_newest_collected_wins : forall f l,
   forall n, lookup (file_table (rev l)) n = loc_of (spec_lookup (map rev_of_section (rev l)) n).
 Print Assumptions c04_any_file_newest_collected_wins.
 
-(** the order ISO 32000-1 7.5.8.4 prescribes on such a chain: each update's section, then the stream
+(** the order ISO 32000-1 7.5.8.4 prescribes on a /Prev chain: each update's section, then the stream
     its trailer names with /XRefStm, then the /Prev chain *)
 Theorem c04_iso_sections_chain : forall f ch,
-  is_chain f ch ->
+  is_prev_chain f ch ->
   iso_sections f = concat (map (fun p => s_sec (snd p) :: xrefstm_secs (f_at f) (snd p)) ch).
 Proof. exact iso_sections_chain_lemma. Qed.
 Check c04_iso_sections_chain : forall f ch,
-  is_chain f ch ->
+  is_prev_chain f ch ->
   iso_sections f = concat (map (fun p => s_sec (snd p) :: xrefstm_secs (f_at f) (snd p)) ch).
 Print Assumptions c04_iso_sections_chain.
 
-(** composition with c04_merge_newest_wins: walk + merge + dispatch = newest revision wins.
-    Full statement (for every well-formed chain, hybrid or not):
-      forall f, wf_chain f -> exists t, read_xref f = WOk t /\
-                forall n, lookup t n = loc_of (spec_lookup (revisions_of f) n)
-    is FALSE for the code (c04_hybrid_refuted below); proved for chains without /XRefStm. *)
+(** composition with c04_merge_newest_wins: walk + merge + dispatch = newest revision wins, for every
+    well-formed chain, hybrid-reference files included *)
 Theorem c04_file_newest_wins : forall f,
-  wf_chain f -> nonhybrid f ->
+  wf_chain f ->
   exists t, read_xref f = WOk t /\ forall n, lookup t n = loc_of (spec_lookup (revisions_of f) n).
 Proof. exact file_newest_wins_lemma. Qed.
 Check c04_file_newest_wins : forall f,
-  wf_chain f -> nonhybrid f ->
+  wf_chain f ->
   exists t, read_xref f = WOk t /\ forall n, lookup t n = loc_of (spec_lookup (revisions_of f) n).
 Print Assumptions c04_file_newest_wins.
 
-(** the same with the hypothesis only on the sections the chain passes through *)
-Theorem c04_file_newest_wins_on : forall f ch,
-  is_chain f ch -> (forall p, In p ch -> xrefstm_secs (f_at f) (snd p) = []) ->
-  exists t, read_xref f = WOk t /\ forall n, lookup t n = loc_of (spec_lookup (revisions_of f) n).
-Proof. exact file_newest_wins_on_lemma. Qed.
-Check c04_file_newest_wins_on : forall f ch,
-  is_chain f ch -> (forall p, In p ch -> xrefstm_secs (f_at f) (snd p) = []) ->
-  exists t, read_xref f = WOk t /\ forall n, lookup t n = loc_of (spec_lookup (revisions_of f) n).
-Print Assumptions c04_file_newest_wins_on.
-
-(** hybrid-reference file: the loop never reads /XRefStm, the hidden objects stay free *)
+(** the pinned loop never read /XRefStm: on a hybrid-reference file the hidden objects stayed free *)
 Theorem c04_hybrid_refuted :
-  exists f t n, wf_chain f /\ read_xref f = WOk t /\ lookup t n <> loc_of (spec_lookup (revisions_of f) n).
+  exists f t n, wf_chain f /\ read_xref_pinned f = WOk t /\ lookup t n <> loc_of (spec_lookup (revisions_of f) n).
 Proof. exact hybrid_refuted_lemma. Qed.
 Check c04_hybrid_refuted :
-  exists f t n, wf_chain f /\ read_xref f = WOk t /\ lookup t n <> loc_of (spec_lookup (revisions_of f) n).
+  exists f t n, wf_chain f /\ read_xref_pinned f = WOk t /\ lookup t n <> loc_of (spec_lookup (revisions_of f) n).
 Print Assumptions c04_hybrid_refuted.
 
-(** exactly what the code does on every well-formed chain: it answers for the file with all /XRefStm
+(** exactly what the pinned loop did on every /Prev chain: it answered for the file with all /XRefStm
     keys deleted *)
-Theorem c04_file_ignores_xrefstm : forall f,
-  wf_chain f ->
-  exists t, read_xref f = WOk t /\ forall n, lookup t n = loc_of (spec_lookup (revisions_of (strip f)) n).
-Proof. exact file_ignores_xrefstm_lemma. Qed.
-Check c04_file_ignores_xrefstm : forall f,
-  wf_chain f ->
-  exists t, read_xref f = WOk t /\ forall n, lookup t n = loc_of (spec_lookup (revisions_of (strip f)) n).
-Print Assumptions c04_file_ignores_xrefstm.
-
-(** the candidate repair (parse the /XRefStm stream right after its section, before /Prev) meets the
-    standard on every well-formed chain *)
-Theorem c04_hybrid_repair_newest_wins : forall f,
-  wf_chain f ->
-  exists l, collect_sections_hybrid f = WOk l /\
-            forall n, lookup (file_table (rev l)) n = loc_of (spec_lookup (revisions_of f) n).
-Proof. exact hybrid_repair_newest_wins_lemma. Qed.
-Check c04_hybrid_repair_newest_wins : forall f,
-  wf_chain f ->
-  exists l, collect_sections_hybrid f = WOk l /\
-            forall n, lookup (file_table (rev l)) n = loc_of (spec_lookup (revisions_of f) n).
-Print Assumptions c04_hybrid_repair_newest_wins.
+Theorem c04_pinned_ignores_xrefstm : forall f,
+  wf_prev_chain f ->
+  exists t, read_xref_pinned f = WOk t /\ forall n, lookup t n = loc_of (spec_lookup (revisions_of (strip f)) n).
+Proof. exact pinned_ignores_xrefstm_lemma. Qed.
+Check c04_pinned_ignores_xrefstm : forall f,
+  wf_prev_chain f ->
+  exists t, read_xref_pinned f = WOk t /\ forall n, lookup t n = loc_of (spec_lookup (revisions_of (strip f)) n).
+Print Assumptions c04_pinned_ignores_xrefstm.
 
 (** find_xref_offset: the last complete startxref/number pair of the tail window wins *)
 Theorem c04_startxref_last_wins : forall pre k post,
@@ -219,22 +193,23 @@ Print Assumptions c04_startxref_last_wins.
 Theorem c04_open_newest_wins : forall pre k post m,
   settled pre -> ~ In LStartxref post ->
   let f := {| f_at := m; f_start := k |} in
-  wf_chain f -> nonhybrid f ->
+  wf_chain f ->
   exists t, open_xref (pre ++ LStartxref :: LNum k :: post) m = WOk t /\
             forall n, lookup t n = loc_of (spec_lookup (revisions_of f) n).
 Proof. exact open_newest_wins_lemma. Qed.
 Check c04_open_newest_wins : forall pre k post m,
   settled pre -> ~ In LStartxref post ->
   let f := {| f_at := m; f_start := k |} in
-  wf_chain f -> nonhybrid f ->
+  wf_chain f ->
   exists t, open_xref (pre ++ LStartxref :: LNum k :: post) m = WOk t /\
             forall n, lookup t n = loc_of (spec_lookup (revisions_of f) n).
 Print Assumptions c04_open_newest_wins.
 
 (** non-vacuity: hypotheses hold on a three-revision chain (classic / xref stream / classic, plus an
-    unreachable stray section); a two-section /Prev cycle is cut; the hybrid witness in numbers *)
-Example c04_chain_nonvacuous : wf_chain ex_file /\ nonhybrid ex_file.
-Proof. exact ex_file_hyps. Qed.
+    unreachable stray section) and on the hybrid witness; the hybrid witness in numbers (pinned loop,
+    fixed loop, standard) *)
+Example c04_chain_nonvacuous : wf_chain ex_file /\ wf_chain hyb_file.
+Proof. exact (conj ex_file_hyps hyb_file_wf). Qed.
 Example c04_chain_values :
   collect_sections ex_file = WOk [ex_r3; ex_r2; ex_r1] /\
   (exists t, read_xref ex_file = WOk t /\
@@ -243,8 +218,12 @@ Example c04_chain_values :
     = [LOffset 17; LOffset 700; LNull; LOffset 500; LMissing].
 Proof. exact ex_file_values. Qed.
 Example c04_hybrid_witness_values :
-  read_xref hyb_file = WOk (file_table [hyb_base; hyb_upd]) /\
+  read_xref_pinned hyb_file = WOk (file_table [hyb_base; hyb_upd]) /\
   map (lookup (file_table [hyb_base; hyb_upd])) [1; 2; 5; 6] = [LOffset 17; LOffset 350; LNull; LNull] /\
+  collect_sections hyb_file = WOk [hyb_upd; hyb_stm; hyb_base] /\
+  read_xref hyb_file = WOk (file_table [hyb_base; hyb_stm; hyb_upd]) /\
+  map (lookup (file_table [hyb_base; hyb_stm; hyb_upd])) [1; 2; 5; 6]
+    = [LOffset 17; LOffset 350; LCompressed 6 0; LOffset 250] /\
   map (fun n => loc_of (spec_lookup (revisions_of hyb_file) n)) [1; 2; 5; 6]
     = [LOffset 17; LOffset 350; LCompressed 6 0; LOffset 250].
 Proof. exact hybrid_witness_values. Qed.
